@@ -554,7 +554,18 @@ def run(ctx):
         chk.violation("R01.7", "anchor:append", "UnaryOp::append_after_iter not found")
     # append_after(other): the functions of `other` go in front of the own ones, each group in its own order
     ab = fb.find_bodies(lambda b: b["kind"] == "AssocFn" and b.get("name") == "append_after" and (b.get("impl_self_ty") or "").startswith("operators::UnaryOp<"))
+    delegates = False
     if len(ab) == 1:
+        class PNo(PSeq):
+            def inline(self, fn, args, interp, path):
+                return False
+        dps_ = [p for p in Interp(fb, PNo()).run(ab[0], [Sym("self_"), Sym("other")]) if p.status not in ("unreachable", "loop-pruned")]
+        if len(dps_) == 1 and dps_[0].status == "return":
+            cl_ = [e for e in dps_[0].events if e[0] == "call" and e[1].startswith("operators::UnaryOp")]
+            if len(cl_) == 1 and cl_[0][1].endswith("::append_after_iter") and len(cl_[0][2]) == 2 and show(cl_[0][2][0]) == "self_" and \
+                    loops.seq_parts(cl_[0][2][1]) == [("src", ".funcs_to_be_composed(other)", "fwd")]:
+                delegates = True        # append_after(other) = append_after_iter(other's functions, in order): judged at that site
+    if len(ab) == 1 and not delegates:
         allp = Interp(fb, PSeq()).run(ab[0], [Sym("self_"), Sym("other")])
         okb = True
         nret = 0
